@@ -1011,6 +1011,9 @@ func (c1 ratConst) representedBy(typ reflect.Type) (constant, error) {
 	if c1.r.IsInt() {
 		return intConst{i: c1.r.Num()}.representedBy(typ)
 	}
+	if k := typ.Kind(); reflect.Int <= k && k <= reflect.Uintptr {
+		return nil, fmt.Errorf("constant %s truncated to integer", c1)
+	}
 	if f, ok := c1.r.Float64(); ok {
 		return float64Const(f).representedBy(typ)
 	}
